@@ -28,6 +28,42 @@ DEC = {"z0": "0", "s1": "1", "s255": "255", "s256": "256", "s2e64": "2^64", "s2e
        "s2e160p1": "2^160+1", "s2e168": "2^168", "s2e255": "2^255", "s2e319": "2^319"}
 
 
+VALUE = {"z0": 0, "s1": 1, "s8": 8, "s9": 9, "s10": 10, "s255": 255, "s256": 256, "s2e64": 2 ** 64, "s2e159": 2 ** 159,
+         "s2e160": 2 ** 160, "s2e160p1": 2 ** 160 + 1, "s2e168": 2 ** 168, "s2e255": 2 ** 255, "s2e319": 2 ** 319}
+DEC.update({"s8": "8", "s9": "9", "s10": "10"})
+
+# Ways a request may SPELL a serial (MsgRevokeCertificate.ID.Serial, CertificateFilter.Serial). Their DECIMAL reading
+# is decided here, not by the code: an optional "+" and decimal digits (leading zeros allowed) name that number;
+# anything else is no decimal number. (A "-" spelling is left out on purpose, see docs/cert.md.)
+SPELL_ALPHABET = ["010", "08", "09", "0010", "011", "012", "+10", "+8", "+0010", "00", " 10", "10 ", "1_0", "1e1",
+                  "0x8", "0xa", "0XA", "0x10", "0o12", "0b1000"]
+
+
+def reading(sp, serials):
+    if not re.fullmatch(r"\+?[0-9]+", sp):
+        return "invalid"
+    n = int(sp)
+    for c in serials:
+        if VALUE[c] == n:
+            return c
+    return "other"
+
+
+def spellings_of(p):
+    out = [{"sp": "", "rd": c} for c in p["serials"]]
+    for sp in p.get("spell", []):
+        out.append({"sp": sp, "rd": reading(sp, p["serials"])})
+    return out
+
+
+def spell_config(tier, seed):
+    """Serials 8, 9, 10 and requests that spell them in other ways than canonical decimal."""
+    big = tier == "thorough"
+    return dict(owners=["A", "B"], serials=["s8", "s9", "s10"], bodies=2, foreign=[], max_ops=4 if big else 3,
+                page_sizes=[0, 1], spell=list(SPELL_ALPHABET), queries="new", n_paths=40 if big else 12,
+                path_len=20 if big else 12, n_deliver=10 if big else 4, chunks=8 if big else 4, light=True)
+
+
 # ------------------------------------------------------------------------------------------------
 # parameters of a run
 
@@ -66,17 +102,24 @@ def make_cfg(base_name, p, impl=None, max_ops=None):
     return text
 
 
-def keys_module(keyorder):
+def keys_module(keyorder, p=None):
     body = ", ".join('<<"%s","%s">>' % (o, s) for o, s in keyorder)
+    if p is None:
+        spl = [{"sp": "", "rd": s} for s in sorted(set(s for _, s in keyorder))]
+    else:
+        spl = spellings_of(p)
+    spl_txt = ", ".join("[sp |-> %s, rd |-> %s]" % (json.dumps(x["sp"]), json.dumps(x["rd"])) for x in spl)
     return ("------------------------------ MODULE CertKeys ------------------------------\n"
             "\\* generated from `vh cert info` for this run\n"
             "KeySeqGen == << %s >>\n"
-            "=============================================================================\n" % body)
+            "SpellingsGen == { %s }\n"
+            "=============================================================================\n" % (body, spl_txt))
 
 
 def vh_args(p):
     return ["--owners", ",".join(p["owners"]), "--serials", ",".join(p["serials"]), "--bodies", str(p["bodies"]),
-            "--pagesizes", ",".join(str(x) for x in p["page_sizes"]), "--foreign", ",".join(p.get("foreign", []))]
+            "--pagesizes", ",".join(str(x) for x in p["page_sizes"]), "--foreign", ",".join(p.get("foreign", [])),
+            "--spellings", json.dumps(spellings_of(p))]
 
 
 # ------------------------------------------------------------------------------------------------
@@ -126,6 +169,7 @@ def random_scripts(p, seed, n, length):
         if s in p.get("foreign", []) and rnd.random() < 0.5:
             return fb
         return rnd.randint(1, p["bodies"])
+    spelled = [x for x in spellings_of(p) if x["sp"]]
     scripts = []
     for _ in range(n):
         reg = {}
@@ -142,6 +186,9 @@ def random_scripts(p, seed, n, length):
             elif roll < 0.75 and valid:
                 o, s = rnd.choice(valid)
                 a = dict(k="revoke", signer=o, mo="", o=o, s=s, b=0)
+                if spelled and rnd.random() < 0.6:
+                    x = rnd.choice(spelled)      # the serial spelled some other way; s = what it names in decimal
+                    a.update(s=x["rd"], sp=x["sp"])
             elif roll < 0.85:
                 other = rnd.choice(p["owners"])
                 mo = rnd.choice([o, other])
@@ -247,7 +294,8 @@ def validate(lines, p, keys_mod, scratch_dir, name, timeout=3000):
 
 def describe_q(q):
     f = q["f"]
-    return "%s/%s f=(o=%s,s=%s,st=%s) ps=%d" % (q["k"], q["via"], f["o"] or "*", f["s"] or "*", f["st"] or "*", q["ps"])
+    return "%s/%s f=(o=%s,s=%s%s,st=%s) ps=%d" % (q["k"], q["via"], f["o"] or "*", f["s"] or "*",
+                                                  (" spelled %r" % q["sp"]) if q.get("sp") else "", f["st"] or "*", q["ps"])
 
 
 def describe_act(d):
@@ -255,12 +303,13 @@ def describe_act(d):
         return "create(signer=%s,msg.owner=%s,subject-cn=%s,issuer-cn=%s,serial=%s,body=%d)" % (
             d["signer"], d["mo"], d["o"], d.get("iss", "?"), d["s"], d["b"])
     if d["ev"] == "revoke":
-        return "revoke(signer=%s,id=%s/%s)" % (d["signer"], d["o"], d["s"])
+        return "revoke(signer=%s,id=%s/%s%s)" % (d["signer"], d["o"], d["s"],
+                                                 (" spelled %r" % d["sp"]) if d.get("sp") else "")
     return d["ev"]
 
 
 def act_of(d):
-    return dict(k=d["ev"], signer=d["signer"], mo=d["mo"], o=d["o"], s=d["s"], b=d["b"])
+    return dict(k=d["ev"], signer=d["signer"], mo=d["mo"], o=d["o"], s=d["s"], b=d["b"], sp=d.get("sp", ""))
 
 
 CT_KNOWN_SIG = "T_ListingComplete:list:count_total:next_key-overwritten-by-nonmatching-key"
@@ -443,17 +492,20 @@ def explore(p, seed, vh, sdir, tag):
         raise vlib.Inconclusive("vh cert info failed:\n" + txt[-2000:])
     info = json.loads(txt.strip().splitlines()[-1])
     keyorder = [tuple(x) for x in info["keyorder"]]
-    keys_mod = keys_module(keyorder)
+    keys_mod = keys_module(keyorder, p)
 
     # ---- J1 (runs concurrently with J2; joined before J3)
     pool = concurrent.futures.ThreadPoolExecutor(max_workers=3)
     f_j1 = pool.submit(vlib.tlc, SPEC_DIR, "CertMC", "j1.cfg", workers=min(6, vlib.NCPU), timeout=1500,
                        extra_files={"j1.cfg": make_cfg("MC_Cert_small.cfg", p), "CertKeys.tla": keys_mod})
     # vacuity guard: the same properties must be able to fail -- the as-found variants of the model do
-    f_j1b = pool.submit(vlib.tlc, SPEC_DIR, "CertMC", "j1b.cfg", workers=2, timeout=600,
-                        extra_files={"j1b.cfg": make_cfg("MC_Cert_d4.cfg", p, max_ops=2), "CertKeys.tla": keys_mod})
-    f_j1c = pool.submit(vlib.tlc, SPEC_DIR, "CertMC", "j1c.cfg", workers=2, timeout=600,
-                        extra_files={"j1c.cfg": make_cfg("MC_Cert_asfound.cfg", p, max_ops=4), "CertKeys.tla": keys_mod})
+    light = bool(p.get("light"))      # secondary configuration of the quick tier: no vacuity guards, no self-test
+    f_j1b = f_j1c = None
+    if not light:
+        f_j1b = pool.submit(vlib.tlc, SPEC_DIR, "CertMC", "j1b.cfg", workers=2, timeout=600,
+                            extra_files={"j1b.cfg": make_cfg("MC_Cert_d4.cfg", p, max_ops=2), "CertKeys.tla": keys_mod})
+        f_j1c = pool.submit(vlib.tlc, SPEC_DIR, "CertMC", "j1c.cfg", workers=2, timeout=600,
+                            extra_files={"j1c.cfg": make_cfg("MC_Cert_asfound.cfg", p, max_ops=4), "CertKeys.tla": keys_mod})
 
     # ---- J2
     def f(name):
@@ -489,11 +541,13 @@ def explore(p, seed, vh, sdir, tag):
         vlib.log("[C17] J2 signed transactions in blocks on the real app: %s" % json.dumps(dstats, sort_keys=True))
         dlines = open(f("deliver.ndjson")).readlines()
 
-    j1, j1b, j1c = f_j1.result(), f_j1b.result(), f_j1c.result()
+    j1 = f_j1.result()
+    j1b = f_j1b.result() if f_j1b else None
+    j1c = f_j1c.result() if f_j1c else None
     pool.shutdown()
     vlib.tlc_require_ok(j1, "J1 Cert.tla")
     vlib.log("[C17] J1: %d states, %d transitions, depth %d, %.1fs" % (j1.distinct, j1.generated, j1.depth, j1.wall_s))
-    if j1b.violated != "Prop_Queries" or j1c.violated != "Prop_Queries":
+    if not light and (j1b.violated != "Prop_Queries" or j1c.violated != "Prop_Queries"):
         raise vlib.Inconclusive("J1 vacuity guard: the as-found variants of the model (D4; count_total) do not "
                                 "violate Prop_Queries (%r, %r)" % (j1b, j1c))
 
@@ -538,8 +592,11 @@ def explore(p, seed, vh, sdir, tag):
                 judged_states.add(d["sid"])
         prev_sid = d["sid"]
     stopped = any(not j.ok for _, _, _, j in results)
-    st = selftest(glines, p, keys_mod, sdir) if not stopped else {"ran": False, "reason": "violations present"}
-    if not stopped and not st.get("ok"):
+    if light:
+        st = {"ran": False, "reason": "secondary configuration"}
+    else:
+        st = selftest(glines, p, keys_mod, sdir) if not stopped else {"ran": False, "reason": "violations present"}
+    if not stopped and not light and not st.get("ok"):
         raise vlib.Inconclusive("binding self-test failed: %s" % json.dumps(st))
     samples = []
     for sid in list(paths.keys())[-2:]:
@@ -553,11 +610,13 @@ def explore(p, seed, vh, sdir, tag):
         "drift": drift, "walk_drift": walk_drift, "selftest": st, "lines": nlines,
         "config": {"owners": p["owners"], "serials": {s: DEC[s] for s in p["serials"]}, "max_ops": p["max_ops"],
                    "page_sizes": p["page_sizes"], "page_modes": ["key", "total", "offset"], "bodies": p["bodies"],
+                   "spellings": [x for x in spellings_of(p) if x["sp"]],
                    "not_self_issued": {"body": p["bodies"] + 1, "serials": p.get("foreign", []),
                                        "issuer_of": info.get("foreign_issuer_of")},
                    "keyorder": ["%s/%s" % k for k in keyorder]},
         "j1": {"distinct": j1.distinct, "generated": j1.generated, "depth": j1.depth, "wall_s": round(j1.wall_s, 1),
-               "d4_variant_violates": j1b.violated, "asfound_variant_violates": j1c.violated},
+               "d4_variant_violates": j1b.violated if j1b else None,
+               "asfound_variant_violates": j1c.violated if j1c else None},
         "j2": {"edges": n_edges, "graph": gstats, "scripts": pstats, "signed_tx_scripts": dstats},
     }
     return violations, parts
@@ -570,7 +629,7 @@ def run(pid, tier, seed, replay):
     if replay:
         return run_replay(pid, tier, seed, replay, vh, sdir, t0)
     vlib.log("[C17] tier=%s seed=%s" % (tier, seed))
-    configs = [("main", params_for(tier, seed))]
+    configs = [("main", params_for(tier, seed)), ("spell", spell_config(tier, seed))]
     if tier == "thorough":
         configs.append(("owners3", second_config(seed)))
         configs.append(("bigserials", third_config(seed)))
@@ -632,7 +691,7 @@ def run_replay(pid, tier, seed, replay, vh, sdir, t0):
         raise vlib.Inconclusive("vh cert info failed:\n" + txt[-2000:])
     info = json.loads(txt.strip().splitlines()[-1])
     keyorder = [tuple(x) for x in info["keyorder"]]
-    keys_mod = keys_module(keyorder)
+    keys_mod = keys_module(keyorder, p)
     out = os.path.join(sdir, "replay.ndjson")
     mode = "paths"
     if os.path.exists(os.path.join(replay, "mode.txt")):
